@@ -15,7 +15,9 @@ OpFails(c, e) ==
     [] e.op = "delete_older" -> Pre("delete_older", DeleteOlderRel(a, e.b, e.t2))
     [] e.op = "decapitate" -> Pre("decapitate", DeleteOlderRel(e.mid, e.b, e.t2)) \cup Pre("decapitate_split", SplitRel(a, e.mid, e.t2, e.nf, e.np))
     [] e.op = "extend_haplotypes" -> Pre("extend", ExtendRel(a, e.b)) \cup (IF e.simplify_same = 1 THEN {} ELSE {"extend_simplified_differs"})
-Fails(c) == UNION {OpFails(c, c.ops[i]) : i \in 1..Len(c.ops)}
+\* every editing call is repeated on the same tables with the metadata of a random subset of rows removed: same rows, each with the
+\* metadata (or none) of the row it came from
+Fails(c) == UNION {OpFails(c, c.ops[i]) : i \in 1..Len(c.ops)} \cup (IF c.ragged_ok = 1 THEN {} ELSE {"ragged_metadata"})
 Init == k = 0
 Next == k < Len(Cases) /\ k' = k + 1
 Spec == Init /\ [][Next]_k
